@@ -118,6 +118,25 @@ def check_dump(world, dump):
                     form = use_form(pseudo, n) if (n in imp[c] or kind != "extra") else "leak"
                     findings.append(("reference-model/inner-proc/%s" % form,
                                      "module procedure %s: name '%s' (%s) is %s in its name table [USE form: %s]" % (key, n, c, kind, form)))
+    # submodules: what their own USE statements import must be in their tables (the ancestor's names are
+    # host-associated and not asserted here)
+    for sm in world.get("submods", []):
+        key = "submodule::" + sm["name"].lower()
+        actual = dump.get("inner", {}).get(key)
+        if actual is None:
+            findings.append(("reference-model/scope-missing", "submodule %s not found by FORD" % sm["name"]))
+            local_diffs += 1
+            continue
+        actual = strip(actual)
+        imp = usemodel.imports(sm["uses"], ford_exports)
+        pseudo = {"uses": sm["uses"], "ents": []}
+        for c in usemodel.CLASSES:
+            for n, o in imp[c].items():
+                if actual[c].get(n) != o:
+                    local_diffs += 1
+                    findings.append(("reference-model/submodule/%s" % use_form(pseudo, n),
+                                     "submodule %s: name '%s' (%s) imported by its own USE is %s in its name table"
+                                     % (sm["name"], n, c, "missing" if n not in actual[c] else "bound to %s" % actual[c][n])))
     if not local_diffs:
         for s, t in g_tables.items():
             if diff_tables(t, strip(dump["tables"].get(s))):
